@@ -79,6 +79,13 @@ SplitStep(fsub, c) ==
     /\ IsBest(fsub, c) /\ G(c) > 0
     /\ DoSplit(c, G(c))
     /\ UNCHANGED <<X, K, par, dev, ph>>
+(* Rounding tolerance: when the best exact gain is exactly 0, floating point may report it as a tiny positive number and   *)
+(* the implementation then applies that zero-gain split (the property only says when fitting MAY stop).  Both are allowed. *)
+ZeroGainSplit(fsub, c) ==
+    /\ ph = "loop" /\ LoopCond /\ fsub \in FeatureSubsets
+    /\ IsBest(fsub, c) /\ G(c) = 0
+    /\ DoSplit(c, 0)
+    /\ UNCHANGED <<X, K, par, dev, ph>>
 (* ... or no admissible split has positive gain: the loop ends *)
 NoGainStep(fsub) ==
     /\ ph = "loop" /\ LoopCond /\ fsub \in FeatureSubsets
